@@ -35,6 +35,8 @@ func dispatch(cmd string, args []string) bool {
 	switch cmd {
 	case "worker":
 		os.Exit(check.WorkerMain(args))
+	case "replay":
+		os.Exit(check.ReplayMain(args))
 	case "family":
 		os.Exit(check.FamilyMain(args))
 	case "check":
